@@ -11,8 +11,8 @@ run m01-C01 C12
 run m05-C12 C12
 run m02-C04 C04
 run m03-C07 C07
-run m03-C07 C11 --only "c11_dual_reused"
-run m09-C11 C11 --only "c11_dual_reused"
+run m03-C07 C11 --only "c11_dual_compress_dirty"
+run m09-C11 C11 --only "c11_dual_compress_dirty"
 run m04-C02 C02 --only "c02_reused"
 run m04-C02 C17
 run m06-C06 C06
